@@ -21,7 +21,25 @@
 (*                -1 never | 0 before the call | k > 0 inside step k after *)
 (*                its statements (and its own `fin`).  database/sql then   *)
 (*                rolls an open transaction back by itself.                *)
+(*                A step with out = "nilfn" is a nil function: calling it  *)
+(*                is a panic (runtime error) of that step; there is no     *)
+(*                closure that could record step / end events for it.      *)
+(*   cfg.db       the handle Transact is given: "ok" (plain, session,      *)
+(*                context, prepared statements, chained clauses ...) |     *)
+(*                "nobegin" a handle on which gorm / database/sql refuse   *)
+(*                to begin without asking the database (it is a            *)
+(*                transaction already, the pool is closed) | "err" a       *)
+(*                handle that carries an error: gorm hands that error on   *)
+(*                to the handle Begin returns, so the begin has failed for *)
+(*                the caller although the database may have been asked -   *)
+(*                no step runs, the caller gets an error, and if the       *)
+(*                database did begin, the transaction is rolled back       *)
+(*                (finished exactly once).                                 *)
 (*   cfg.begin / commit / rollback   does the database accept the request  *)
+(*                                                                         *)
+(* ret / gone carry two observations of the caller: `inuse` connections of  *)
+(* the pool still checked out after the call (a finished transaction gives *)
+(* its connection back: 0) and `inmut` the argument list is as it was.     *)
 (*                                                                         *)
 (* A transaction ended behind Transact's back (by a step or by the         *)
 (* cancelled context) is "dead": database/sql answers every later request  *)
@@ -59,7 +77,7 @@ CONSTANTS FixNilRecover, TxDoneIsError
 
 VARIABLES
   cfg,    \* the environment's choices (constant during a call)
-  pc,     \* "start" | "run" | "in" | "failed" | "finished" | "nobegin" | "done"
+  pc,     \* "start" | "run" | "in" | "failed" | "finished" | "nobegin" | "errbegun" | "done"
   cur,    \* index of the step running / that ran last (0: none yet)
   nex,    \* statements executed so far by step cur
   fail,   \* index of the first step that did not return nil (0: none)
@@ -88,6 +106,10 @@ IsError(r) == r.kind \notin {"nil", "raised", "none", "gone"}
 Unnoticed == fail > 0 /\ Out(fail) \in {"pnil", "exit"}
 Noticed   == FixNilRecover \/ ~Unnoticed
 
+(* the next step is a nil function: calling it panics, nothing of it is recorded *)
+NilNext == pc = "run" /\ cur < NSteps /\ Out(cur + 1) = "nilfn"
+PanicOf(i) == [kind |-> "panic", i |-> i]
+
 (* the transaction was ended behind Transact's back *)
 Dead == fin # <<>> /\ fin[1].by # "transact"
 DeadBefore(i) == Dead /\ fin[1].at < i
@@ -110,11 +132,12 @@ PanicNilErrors(i) == {[kind |-> "panic", i |-> i], [kind |-> "other", i |-> 0]}
 (* what the caller may get once the transaction is finished *)
 FailRet(r) ==
   CASE Out(fail) = "err"   -> r = [kind |-> "step", i |-> fail]
-    [] Out(fail) = "panic" -> r = [kind |-> "panic", i |-> fail]
+    [] Out(fail) \in {"panic", "nilfn"} -> r = PanicOf(fail)
     [] Out(fail) = "pnil"  -> r \in PanicNilErrors(fail)
     [] OTHER               -> FALSE               \* exit: nobody to return to
 RetAfterFinish(r) ==
-  IF fin[1].op = "commit"
+  IF cfg.db = "err" THEN IsError(r)                  \* the handle's error or any other
+  ELSE IF fin[1].op = "commit"
   THEN IF fin[1].ok THEN r = Nil ELSE IsError(r)     \* which error: left open
   ELSE FailRet(r)
 (* the transaction is dead when Transact comes to finish it: nothing reaches the database *)
@@ -125,12 +148,12 @@ RetOnDead(r) ==
 Do(a) ==
   CASE a.ev = "begin" ->
          /\ pc = "start" /\ cfg.n > 0 /\ a.ok = cfg.begin
-         /\ cfg.cancel # 0                      \* a cancelled context never reaches the database
+         /\ cfg.cancel # 0 /\ cfg.db # "nobegin"  \* these never reach the database
          /\ begun' = Append(begun, a.ok)
-         /\ pc' = IF a.ok THEN "run" ELSE "nobegin"
+         /\ pc' = IF ~a.ok THEN "nobegin" ELSE IF cfg.db = "err" THEN "errbegun" ELSE "run"
          /\ UNCHANGED <<cfg, cur, nex, fail, ran, execs, fin, ret>>
     [] a.ev = "step" ->
-         /\ pc = "run" /\ a.i = cur + 1 /\ a.i <= NSteps
+         /\ pc = "run" /\ a.i = cur + 1 /\ a.i <= NSteps /\ Out(a.i) # "nilfn"
          /\ pc' = "in" /\ cur' = a.i /\ nex' = 0 /\ ran' = Append(ran, a.i)
          /\ UNCHANGED <<cfg, fail, begun, execs, fin, ret>>
     [] a.ev = "exec" ->
@@ -153,24 +176,38 @@ Do(a) ==
          /\ UNCHANGED <<cfg, cur, nex, fail, begun, ran, execs, ret>>
     [] a.ev = "rollback" ->
          /\ a.ok = cfg.rollback
-         /\ \/ /\ RollingBack /\ ~Dead
+         /\ \/ /\ (RollingBack /\ ~Dead) \/ pc = "errbegun"
                /\ fin' = Append(fin, Fin("rollback", a.ok, "transact", 0)) /\ pc' = "finished"
+               /\ UNCHANGED <<cur, fail, ran>>
+            \/ /\ NilNext /\ ~Dead                 \* the nil step panicked
+               /\ fin' = Append(fin, Fin("rollback", a.ok, "transact", 0)) /\ pc' = "finished"
+               /\ cur' = cur + 1 /\ fail' = cur + 1 /\ ran' = Append(ran, cur + 1)
             \/ /\ StepFinishes("rollback")
                /\ fin' = Append(fin, Fin("rollback", a.ok, "step", cur)) /\ pc' = pc
+               /\ UNCHANGED <<cur, fail, ran>>
             \/ /\ CtxRollsBack
                /\ fin' = Append(fin, Fin("rollback", a.ok, "ctx", cur)) /\ pc' = pc
-         /\ UNCHANGED <<cfg, cur, nex, fail, begun, ran, execs, ret>>
+               /\ UNCHANGED <<cur, fail, ran>>
+         /\ UNCHANGED <<cfg, nex, begun, execs, ret>>
     [] a.ev = "ret" ->
-         /\ CASE pc = "start"    -> IF cfg.n = 0 THEN a.r.kind # "raised"   \* value left open
-                                    ELSE cfg.cancel = 0 /\ IsError(a.r)   \* begin refused
-              [] pc = "nobegin"  -> IsError(a.r)                        \* which error: left open
-              [] pc = "finished" -> RetAfterFinish(a.r)
-              [] pc = "run"      -> cur = NSteps /\ Dead /\ RetOnDead(a.r)
-              [] pc = "failed"   -> Dead /\ RetOnDead(a.r)
-              [] OTHER           -> FALSE
+         /\ a.inuse = 0 /\ a.inmut = TRUE
          /\ ret' = a.r /\ pc' = "done"
-         /\ UNCHANGED <<cfg, cur, nex, fail, begun, ran, execs, fin>>
+         /\ IF NilNext /\ Dead                   \* the nil step panicked, nothing left to roll back
+            THEN /\ a.r = PanicOf(cur + 1)
+                 /\ cur' = cur + 1 /\ fail' = cur + 1 /\ ran' = Append(ran, cur + 1)
+                 /\ UNCHANGED <<cfg, nex, begun, execs, fin>>
+            ELSE /\ CASE pc = "start" ->
+                          IF cfg.n = 0 THEN a.r.kind # "raised"            \* value left open
+                          ELSE /\ cfg.cancel = 0 \/ cfg.db # "ok"          \* begin refused / failed
+                               /\ IsError(a.r)
+                        [] pc = "nobegin"  -> IsError(a.r)               \* which error: left open
+                        [] pc = "finished" -> RetAfterFinish(a.r)
+                        [] pc = "run"      -> cur = NSteps /\ Dead /\ RetOnDead(a.r)
+                        [] pc = "failed"   -> Dead /\ RetOnDead(a.r)
+                        [] OTHER           -> FALSE
+                 /\ UNCHANGED <<cfg, cur, nex, fail, begun, ran, execs, fin>>
     [] a.ev = "gone" ->
+         /\ a.inuse = 0 /\ a.inmut = TRUE
          /\ pc = "finished" \/ (pc = "failed" /\ Dead)
          /\ fail > 0 /\ Out(fail) = "exit"
          /\ ret' = Gone /\ pc' = "done"
@@ -186,12 +223,13 @@ InitWith(c) ==
 
 ---------------------------------------------------------------------------
 (* Bounded instance for exhaustive checking *)
-CONSTANTS MaxArgs, MaxSteps, MaxEx, Outs, Fins, CancelOn
+CONSTANTS MaxArgs, MaxSteps, MaxEx, Outs, Fins, CancelOn, DbStates
 
-StepRecs == [out : Outs, ex : 0..MaxEx, fin : Fins]
+StepRecs == {s \in [out : Outs, ex : 0..MaxEx, fin : Fins] :
+               s.out = "nilfn" => s.ex = 0 /\ s.fin = "none"}
 StepLists == UNION {[1..m -> StepRecs] : m \in 0..MaxSteps}
-MkCfg(n, s, b, c, r, k) ==
-  [n |-> n, steps |-> s, begin |-> b, commit |-> c, rollback |-> r, cancel |-> k]
+MkCfg(n, s, b, c, r, k, d) ==
+  [n |-> n, steps |-> s, begin |-> b, commit |-> c, rollback |-> r, cancel |-> k, db |-> d]
 CancelPts(m) == IF CancelOn THEN -1..m ELSE {-1}
 
 RetVals ==      [kind : {"nil", "begin", "commit", "rollback", "other", "raised"}, i : {0}]
@@ -201,22 +239,23 @@ Acts ==
   \cup [ev : {"step"}, i : 1..MaxSteps]
   \cup [ev : {"exec"}, i : 1..MaxSteps, tx : BOOLEAN]
   \cup [ev : {"end"}, i : 1..MaxSteps, out : Outs]
-  \cup [ev : {"ret"}, r : RetVals]
-  \cup [ev : {"gone"}]
+  \cup [ev : {"ret"}, r : RetVals, inuse : {0, 1}, inmut : BOOLEAN]
+  \cup [ev : {"gone"}, inuse : {0, 1}, inmut : BOOLEAN]
 
 Init == \E n \in 0..MaxArgs, s \in StepLists, b, c, r \in BOOLEAN :
-          \E k \in CancelPts(Len(s)) :
+          \E k \in CancelPts(Len(s)), d \in DbStates :
           /\ n = 0 => s = <<>>
-          /\ InitWith(MkCfg(n, s, b, c, r, k))
+          /\ d # "ok" => Len(s) <= 1           \* the steps never matter then
+          /\ InitWith(MkCfg(n, s, b, c, r, k, d))
 Next == \E a \in Acts : Step(a)
 Spec == Init /\ [][Next]_allvars
 
 (* ------------------------- the property ------------------------------ *)
 Began == begun = <<TRUE>>
-AllOk == fail = 0 /\ cur = NSteps /\ pc # "in"      \* every supplied step returned nil
+AllOk == fail = 0 /\ cur = NSteps /\ pc = "run"     \* every supplied step returned nil
 
 TypeOK ==
-  /\ pc \in {"start", "run", "in", "failed", "finished", "nobegin", "done"}
+  /\ pc \in {"start", "run", "in", "failed", "finished", "nobegin", "errbegun", "done"}
   /\ cur \in 0..NSteps /\ fail \in 0..NSteps /\ nex \in Nat
   /\ Len(begun) <= 1 /\ Len(fin) <= 1
 
@@ -233,8 +272,8 @@ FinishedOnce ==
 (* it asks for arrives)                                                       *)
 CommitIffAllOk ==
   (fin # <<>> /\ fin[1].by = "transact") =>
-                /\ fin[1].op = "commit"   <=> (fail = 0 /\ ran = [i \in 1..NSteps |-> i])
-                /\ fin[1].op = "rollback" <=> fail > 0
+                /\ fin[1].op = "commit"   <=> (fail = 0 /\ ran = [i \in 1..NSteps |-> i] /\ cfg.db = "ok")
+                /\ fin[1].op = "rollback" <=> (fail > 0 \/ cfg.db = "err")
 
 (* steps run in order, inside the transaction, and none after the first failure *)
 NoLaterStep ==
@@ -251,7 +290,8 @@ RetRight ==
      /\ cfg.n > 0 => (ret = Nil <=> fin = <<Fin("commit", TRUE, "transact", 0)>>)
      /\ ret.kind # "raised"
      /\ (fail > 0 /\ Out(fail) = "err")    => ret = [kind |-> "step", i |-> fail]
-     /\ (fail > 0 /\ Out(fail) = "panic") => ret = [kind |-> "panic", i |-> fail]
+     /\ (fail > 0 /\ Out(fail) \in {"panic", "nilfn"}) => ret = PanicOf(fail)
+     /\ cfg.db # "ok" => ran = <<>>
      /\ (fail > 0 /\ Out(fail) = "pnil")  => ret \in PanicNilErrors(fail)
 GoneOnlyByExit == ret = Gone => fail > 0 /\ Out(fail) = "exit"
 
@@ -266,7 +306,7 @@ FinishGuard ==
   [][LET a == last' IN
        /\ a.ev \in {"commit", "rollback"} => Began /\ fin = <<>>
        /\ (a.ev = "commit"   /\ fin'[1].by = "transact") => AllOk
-       /\ (a.ev = "rollback" /\ fin'[1].by = "transact") => fail > 0]_allvars
+       /\ (a.ev = "rollback" /\ fin'[1].by = "transact") => (fail' > 0 \/ cfg.db = "err")]_allvars
 NothingAfterAnswer ==
   [][pc = "done" => UNCHANGED vars]_allvars
 
